@@ -1,11 +1,14 @@
 -------------------------------- MODULE IsoParams --------------------------------
 (* Parameter lattice of the galaxies and fit configurations used for C20, enumerated by TLC for the conformance harness.          *)
 EXTENDS Integers, Sequences, FiniteSets, TLC, Json
-CONSTANTS Eps, Pas, Laws, Fixes, Modes, Frames, Emit
-VARIABLES e, p, l, f, m, cx, fr, done
-vars == <<e, p, l, f, m, cx, fr, done>>
+CONSTANTS Eps, Pas, Laws, Fixes, Modes, Frames, Starts, Emit
+VARIABLES e, p, l, f, m, cx, fr, st, done
+vars == <<e, p, l, f, m, cx, fr, st, done>>
 Init == e \in Eps /\ p \in Pas /\ l \in Laws /\ f \in Fixes /\ m \in Modes /\ cx \in {0, 1} /\ fr \in Frames /\ done = FALSE
-Observe == ~done /\ done' = TRUE /\ UNCHANGED <<e, p, l, f, m, cx, fr>>
-           /\ (Emit => PrintT(<<"GEN", ToJson([eps |-> e, pa |-> p, law |-> l, fix |-> f, mode |-> m, centre |-> cx, frame |-> fr])>>))
+        \* first guess: near the truth, or with the position angle perpendicular to it (only meaningful, and only demanded to
+        \* converge, for nearly round galaxies fitted with all parameters free)
+        /\ st \in {s \in Starts : s = "perp" => (e <= 20 /\ f = "none" /\ m = "bilinear")}
+Observe == ~done /\ done' = TRUE /\ UNCHANGED <<e, p, l, f, m, cx, fr, st>>
+           /\ (Emit => PrintT(<<"GEN", ToJson([eps |-> e, pa |-> p, law |-> l, fix |-> f, mode |-> m, centre |-> cx, frame |-> fr, start |-> st])>>))
 Spec == Init /\ [][Observe]_vars
 =============================================================================
